@@ -513,6 +513,10 @@ def misc_summaries(exe, st, f, bb, c, args, dest_ty):
         v = args[0]
         if isinstance(v, VAgg) and v.variant == "Err":
             return [(st, VAgg("Result::Err", "Err", list(v.fields)))]
+        if isinstance(v, VOpaque) and "::Err(" in v.name:
+            m = re.search(r"::Err\((?:const )?([\w:]+)\)", v.name)
+            inner = VAgg(m.group(1), m.group(1).split("::")[-1], []) if m else VOpaque("?", "err")
+            return [(st, VAgg("Result::Err", "Err", [inner]))]
         return None
     # ---- Cell -----------------------------------------------------------------------------
     if re.search(r"Cell::<.*>::get$", c):
